@@ -3,7 +3,21 @@
 import json, os
 VERIF = os.path.dirname(os.path.dirname(os.path.abspath(__file__)))
 ALL = [f"C{i:02d}" for i in range(1, 21)]
+NOTE_COMMON = ("Trusted: Lean kernel + propext/Classical.choice/Quot.sound; translator B (tools/trace.py) that records the einsum calls; "
+               "numpy.einsum semantics (Geo.evalEinsum); float64 exactness on lattice inputs; harness/driver parser. ")
 CLAIMED = {
+    "C01": ("Lean 4 theorems (simp+ring over any commutative ring) about the einsum calls recorded from the running library (regenerated every run) for all 12 join/meet scenarios; correspondence with the exact Lean dispatcher model",
+            "Kernel-checked incidence / antisymmetry / closed-form / rank-one (Blinn) / round-trip theorems stated on the diagrams the code actually builds (lean/Geo/Gen/Diagrams.lean is regenerated from /repo on every run), for all coordinate vectors; the dispatcher (branch selection, arg-max row/column, collections) is tied by a differential run against the exact model (Gaussian rationals) incl. every argument permutation, collections and round trips.",
+            NOTE_COMMON + "Uniqueness of the span is proved in the plane (2x2 minors) and via closed forms in space; collections rely on C04's T04_2.",
+            "DESIGN.md 7/C01"),
+    "C02": ("Lean 4 theorems: traced contractions vanish on dependent arguments, entries are the maximal minors, coplanarity scalar = ±4 det, model dispatcher raises iff a position is zero; correspondence on a degenerate-first stream and exhaustive small lattices",
+            "Kernel-checked: dependent arguments give the zero tensor for every traced scenario (no silent wrong answer), entries are ± the minors (general position never raises), coplanarity scalar = ±4·det[a,b,c,d], error/mask of the dispatcher model; tied to the code by the regenerated diagrams and by differential runs that compare exception class, mask and value (quick: random degenerate stream; thorough: exhaustive lattices).",
+            NOTE_COMMON + "Tolerance 1e-8 is modelled as exact zero (agrees on exactly representable inputs of moderate size).",
+            "DESIGN.md 7/C02"),
+    "C04": ("Lean 4 theorem T04_2 (induction over summed labels, any diagram): einsum at a collection position = einsum of the slices; correspondence comparing every collection call position-by-position with the model on single objects; element access classes/attributes",
+            "Kernel-checked general elementwise theorem for the einsum issued by TensorDiagram.calculate (all diagrams, all ranks, broadcasting of operands with fewer collection axes); the vectorised special branches and __getitem__/__iter__ are tied by differential runs: impl(collection)[pos] vs model(single objects at pos), masks, element class and attributes (is_dual, pdim, cached line/plane).",
+            NOTE_COMMON + "Size-1 broadcasting inside an axis and the label bookkeeping of calculate (T04.1) are covered by the C05 correspondence, not by a theorem.",
+            "DESIGN.md 7/C04"),
     # id: (technique, level text, level note, design ref)
     "C05": ("Lean 4 proofs about a hand-written model of TensorDiagram/LeviCivita/KroneckerDelta (induction over arbitrary op sequences; sign of permutations for all n via Mathlib) + correspondence (differential, exact integers) of model vs implementation",
             "Machine-checked theorems (Lean 4 kernel) about the executable model of add_node/add_edge/calculate and of the epsilon/delta constructions, for every diagram / every n; the model is tied to /repo's working tree on every run by an in-process differential run on random and exhaustively enumerated edge sequences.",
